@@ -173,11 +173,11 @@ func (e *wenv) port() int {
 
 // built is what one execution needs to know about the real resources.
 type built struct {
-	vars     [][]gate2.Var                    // per archetype
-	cfg      [][]distsys.MPCalContextConfigFn // per archetype
-	logs     []*gate2.Log                     // per archetype: ground truth of operations that reached wrapped resources
-	plans    []map[string]*gate2.FaultPlan    // per archetype, per variable
-	wrapped  []map[string]bool                // per archetype: variables bound through Logging wrappers
+	vars    [][]gate2.Var                    // per archetype
+	cfg     [][]distsys.MPCalContextConfigFn // per archetype
+	logs    []*gate2.Log                     // per archetype: ground truth of operations that reached wrapped resources
+	plans   []map[string]*gate2.FaultPlan    // per archetype, per variable
+	wrapped []map[string]bool                // per archetype: variables bound through Logging wrappers
 }
 
 func buildSystem(sys sysSpec, env *wenv, withFaulty bool) *built {
